@@ -25,13 +25,17 @@ def run(ctx):
     ctx.add_obligations(vcheck.coq_props("Store", "C02"))
     ctx.cov["checker_cmd"] = ("coqc -Q coq/Store BWStore coq/Store/Props/C02.v; work/bin/h_store -mode hist -c02 | "
                               "coqc work/C02/cases_*.v (digest of all_queries x default options per state, vm_compute)")
-    n = 40 if ctx.quick() else 1200
+    n = 30 if ctx.quick() else 1200
     hargs = ["-maxops", 30, "-usize", 24]
+    if ctx.replay and sc.replay(ctx, ["-c02"], hargs, (False, True, False)):
+        return
     hists = sc.hstore(["-mode", "hist", "-n", n, "-seed", ctx.seed, "-c02"] + hargs)
     bad = sc.model_mismatches(ctx, "cases_c02", hists, False, True, False, shard=100)
     sc.report(ctx, ctx.seed, hargs, hists, bad)
     dist = sc.distribution(hists)
     ctx.cov.update(dist)
+    st = [sum(h["lookup_stats"][i] for h in hists) for i in range(4)]
+    ctx.cov["lookup_results"] = {"empty": st[0], "non_empty": st[1], "error": st[2], "elements_returned": st[3]}
     lookups = sum(h["lookups"] for h in hists)
     ctx.cov["evaluations"] = lookups
     seen = set()
